@@ -227,7 +227,7 @@ func judgeC09(c C09Case) *Fail {
 }
 
 func c09Opts(g G) GenOpts {
-	o := GenOpts{MaxBiases: 3, ValueMode: -1, BiasLikeIds: true}
+	o := GenOpts{MaxBiases: 3, ValueMode: -1, BiasLikeIds: true, BigTiers: true}
 	switch g.Int(0, 3) {
 	case 0:
 		o.Methods = heuristicMethods
